@@ -3,9 +3,10 @@ import I2P.Driver.KacOps
 import I2P.Driver.StructOps
 import I2P.Driver.TimeOps
 import I2P.Driver.BaseOps
+import I2P.Driver.NetOps
 open I2P.Driver
 
-def allOps : List (String × Op) := dataOps ++ kacOps ++ structOps ++ timeOps ++ baseOps
+def allOps : List (String × Op) := dataOps ++ kacOps ++ structOps ++ timeOps ++ baseOps ++ netOps
 
 def step (line : String) : String :=
   match line.trimAscii.toString.splitOn " " with
